@@ -114,7 +114,8 @@ class StatsMiddleware(Middleware):
         try:
             resp = next()
             resp_status = repr(getattr(resp, 'status_code', resp.__class__.__name__))
-            resp_mime_type = resp.content_type.partition(';')[0]
+            # a response may carry no Content-Type at all
+            resp_mime_type = (resp.content_type or '').partition(';')[0]
         except Exception as e:
             # see Werkzeug #388
             resp_status = repr(getattr(e, 'code', e.__class__.__name__))
